@@ -113,6 +113,52 @@ def gen_align(args):
     return recs
 
 
+def _same(a, b):
+    if isinstance(a, str) or isinstance(b, str):
+        return a == b and False
+    if isinstance(a, (tuple, list)):
+        return len(a) == len(b) and all(_same(p, q) for p, q in zip(a, b))
+    a, b = np.asarray(a, float), np.asarray(b, float)
+    return a.shape == b.shape and np.array_equal(a, b, equal_nan=True)
+
+
+def gen_forms(args):
+    """The `cycles` argument in its documented forms (label vector, Cycles container, an IterateCycles iterator
+    obtained from the container - whatever mode that iterator was created with): the `mode` ARGUMENT of the
+    routine governs, so every form gives the same result."""
+    seed, count = args
+    emd = core.import_emd()
+    rng = np.random.RandomState(seed)
+    recs = []
+    for _ in range(count):
+        K = int(rng.randint(3, 7))
+        ip = np.concatenate([np.sort(rng.uniform(.02, 2 * np.pi - .02, size=int(rng.randint(12, 60)))) for _ in range(K)])
+        x = np.cos(ip) + .1 * rng.randn(len(ip))
+        C = emd.cycles.Cycles(ip)
+        for mode in ('cycle', 'augmented'):
+            other = 'augmented' if mode == 'cycle' else 'cycle'
+            for fn_name in ('phase_align', 'get_cycle_stat', 'get_control_points'):
+                def run(form):
+                    if fn_name == 'phase_align':
+                        return core.guarded(emd.cycles.phase_align, ip, x, cycles=form, npoints=16, mode=mode)
+                    if fn_name == 'get_cycle_stat':
+                        return core.guarded(emd.cycles.get_cycle_stat, form, x, mode=mode, func=np.sum)
+                    return core.guarded(emd.cycles.get_control_points, x, form, mode=mode)
+                ref = run(C)
+                forms = {'iterator_default': C.iterate(), 'iterator_same_mode': C.iterate(mode=mode), 'iterator_other_mode': C.iterate(mode=other)}
+                if mode == 'cycle':
+                    forms['label_vector'] = C.cycle_vect.copy()
+                if fn_name == 'get_control_points' and mode == 'cycle':
+                    # get_control_points only ever switches a supplied iterator TO augmented mode; an iterator created
+                    # in augmented mode combined with mode='cycle' is a contradictory request the routine does not
+                    # resolve (DESIGN appendix B) - not demanded here
+                    del forms['iterator_other_mode']
+                for name, form in forms.items():
+                    recs.append({'kind': 'forms', 'fn': fn_name, 'mode': mode, 'form': name, 'ref_raised': int(isinstance(ref, str)),
+                                 'same': int(_same(run(form), ref)), 'seed': seed, 'ncycles': int(C.ncycles)})
+    return recs
+
+
 def gen_bin(args):
     emd = core.import_emd()
     recs = []
@@ -166,6 +212,7 @@ def run():
         na = ctx.pick(160, 1600)
         recs += [r for rs in pool.imap_unordered(gen_align, [(ctx.seed * 100 + i, na // 16) for i in range(16)]) for r in rs]
         recs += [r for rs in pool.imap_unordered(gen_bin, [bins[i::16] for i in range(16)]) for r in rs]
+        recs += [r for rs in pool.imap_unordered(gen_forms, [(ctx.seed * 100 + i, ctx.pick(2, 10)) for i in range(16)]) for r in rs]
     bad = core.validate_records(ctx, 'CycleStatsRec', recs, name='CycleStatsRec')
     kinds = {}
     for r in recs:
@@ -181,7 +228,7 @@ def run():
     ctx.cov['rule'] = ('every label vector of length 1..%d over {-1,0,1,2} whose labels are 0..K-1 (gaps and non-contiguous labels anywhere) x every value vector over {0,1,5} x '
                        '{sum,len,max,min,first,last,range,mean} x both output modes; phase_align on linear functions of phase (cycle lengths 8..400, npoints 2..64, 3 interpolation kinds, '
                        'unlabelled samples in between) and on a smooth non-linear function (error bound); bin_by_phase with explicit integer edges (samples on edges / out of range) '
-                       'and default edges; non-trivial = stat records with >= 2 cycles and a gap' % L)
+                       'and default edges; phase_align / get_cycle_stat / get_control_points with the cycles given as label vector, Cycles container and IterateCycles iterators created with either mode x mode argument {cycle, augmented}; non-trivial = stat records with >= 2 cycles and a gap' % L)
     seen = {}
     for r, clause in bad:
         seen.setdefault(clause, []).append(r)
